@@ -79,6 +79,11 @@ def check(prop: str, tier: str, repo: str | None, write: bool = True) -> int:
                         prog, ctx, rep = prog2, ctx2, rep2
                     else:
                         normal_form_note = f"normal form ({inlined}) gives the same verdict"
+                        if os.environ.get("SA_SHOW_NF"):
+                            for o in bad2:
+                                print(f"  [normal form] {o.loc}: {o.rule}: {(o.msg or o.desc)[:260]}")
+                            for e2 in rep2.errors:
+                                print(f"  [normal form] ANALYSIS-ERROR {e2[:260]}")
                 except AnalysisError as e:
                     normal_form_note = f"normal form not analysable: {e}"
         new_violations = []
